@@ -14,7 +14,6 @@ import itertools
 
 from specs import core as S
 from specs import growth as G
-from vlib import codec
 from vlib import domains as D
 from vlib.core import bad, check, ok
 
@@ -38,6 +37,25 @@ SPEC = {
 }
 KINDS = ("list", "tuple", "set", "frozenset", "generator", "iter", "Basis", "deque", "dict_keys")
 ONE_SHOT = ("generator", "iter")
+
+
+_LOCK_PID = None
+
+
+def _own_av_lock():
+    """Av._CACHE_LOCK is a multiprocessing.Lock created at import time; forked pool
+    workers inherit the *same* OS semaphore, which serialises every Av query across
+    all workers of the pool.  Each process gets its own lock (what a freshly started
+    interpreter has); behaviour inside one process is unchanged."""
+    global _LOCK_PID
+    import multiprocessing
+    import os
+
+    if _LOCK_PID != os.getpid():
+        from permuta import Av
+
+        Av._CACHE_LOCK = multiprocessing.Lock()
+        _LOCK_PID = os.getpid()
 
 
 def _fn(name):
@@ -152,20 +170,10 @@ for _f in FUNCS:
     _make_container(_f)
 
 
-def kf_av_oneshot(failure):
-    """Known defect: Av.from_iterable (also reached through Av(iterable)) first
-    scans its argument in MeshBasis.is_mesh_basis and then unpacks it again into
-    Basis(*basis); a one-shot iterator is empty the second time, so the constructor
-    raises the 'empty basis' ValueError."""
-    how, _perms = codec.dec(failure["input"])
-    return how in ("generator", "from_iterable") and failure.get("actual", "").startswith(
-        "raised ValueError: Basis should be non-empty"
-    )
-
-
 # ------------------------------------------------------------ Av methods
 @check("C13.av_methods")
 def av_methods(item):
+    _own_av_lock()
     how, perms = item
     from permuta import Av, Basis
 
@@ -216,6 +224,7 @@ def _cli(func_name, sub, string):
 
 @check("C13.cli.poly")
 def cli_poly(item):
+    _own_av_lock()
     perms, sep = item
     want = G.spec_is_polynomial(_tuples(perms))
     direct, parsed = _cli("has_poly_growth", "poly", _basis_string(perms, sep))
@@ -234,6 +243,7 @@ def cli_poly(item):
 
 @check("C13.cli.insenc")
 def cli_insenc(item):
+    _own_av_lock()
     perms, sep = item
     b = _tuples(perms)
     direct, parsed = _cli("has_regular_insertion_encoding", "insenc", _basis_string(perms, sep))
@@ -347,6 +357,7 @@ def symmetry(basis):
 def enumeration(item):
     """The verdicts of the real functions against the real counting sequence of
     Av(B) (permuta's Av: property C02)."""
+    _own_av_lock()
     basis, nmax, polymax = item
     from permuta import Av, Basis
 
